@@ -21,6 +21,7 @@ type Case struct {
 type Failure struct {
 	What   string         `json:"what"`   // short description, matched against known findings
 	Sig    string         `json:"sig"`    // signature used to match known_findings.json entries
+	Prop   string         `json:"prop,omitempty"` // the property whose statement the observation contradicts ("" = the family's own)
 	Case   map[string]any `json:"case"`
 }
 
